@@ -141,7 +141,9 @@ func TestC10(t *testing.T) {
 	rapid.Check(t, func(t *rapid.T) {
 		c := genC10(t)
 		cl := gen.Classify(c.Graph)
+		vstat.InFlight("C10", "elements", c)
 		f, reached := oracleC10(c)
+		vstat.ClearInFlight("C10")
 		r.Eval()
 		r.Count("single-element expansions", len(c.Calls))
 		for _, call := range c.Calls {
